@@ -244,6 +244,19 @@ def seedact_set_impl(x, gen: bool) -> str:
     return _classify_seeding(before, r, x)
 
 
+OWN_STATE_KEY = "_generator_state"    # the key of the F-11 repair's decorator (Gen/OwnGeneratorState.stateKey; c03.py obliges the equality)
+
+
+def _hand_known_state(env) -> None:
+    """the state the rig has just put the process-wide generators in becomes the state the environment's next operation STARTS FROM: since
+    the F-11 repair an operation first puts the environment's own saved state back (on a tree without the repair: nothing to do)"""
+    import random
+    import numpy as np
+    d = getattr(env, "__dict__", None)
+    if isinstance(d, dict) and OWN_STATE_KEY in d:
+        d[OWN_STATE_KEY] = (random.getstate(), np.random.get_state())
+
+
 def seedact_reset_impl(env, x, gen: bool) -> str:
     """`env.reset(seed=x)` with `generate_seed_value = gen`: does it call set_random_seed, and what does the call do? The
     generators are put in a known state first and read again right after the seeding call (before from_config draws)."""
@@ -265,6 +278,7 @@ def seedact_reset_impl(env, x, gen: bool) -> str:
     env.generate_seed_value = gen
     random.seed(424242)
     np.random.seed(424242)
+    _hand_known_state(env)
     envmod.set_random_seed = recorder
     try:
         env.reset(seed=x)
